@@ -352,6 +352,10 @@ def check_frozen(case) -> Res:
         open(os.path.join(cache, digest[:16] + ".oct.md"), "w").write(good)
     elif layout == "wrong_content":
         open(os.path.join(cache, digest[:16] + ".oct.md"), "w").write(other)
+    elif layout in ("crlf_content", "cr_content"):
+        # the cache file differs from the pinned bytes ONLY in its line ends: its bytes do not hash to the digest
+        with open(os.path.join(cache, digest[:16] + ".oct.md"), "wb") as f:
+            f.write(good.replace("\n", "\r\n" if layout == "crlf_content" else "\r").encode())
     elif layout == "symlink_to_outside_other":
         os.symlink(os.path.join(home, "outside", "secret.oct.md"), os.path.join(cache, digest[:16] + ".oct.md"))
     elif layout == "absent":
@@ -494,7 +498,7 @@ def run(ctx):
         shutil.rmtree(_tmpd, ignore_errors=True)
     ctx.coverage["schema_names_enumerated"] = total
     shapes = ["exact", "upper", "short", "long", "traversal", "traversal64", "slash", "nul", "newline", "prefix16_other_tail", "space", "empty", "latest", "Latest"]
-    ctx.explore("frozen_refs", Product(shapes, ["good", "wrong_content", "symlink_to_outside_other", "absent"]), check_frozen, chunk=4)
+    ctx.explore("frozen_refs", Product(shapes, ["good", "wrong_content", "crlf_content", "cr_content", "symlink_to_outside_other", "absent"]), check_frozen, chunk=4)
     ctx.explore("source_uris", Product(Sequences(URISEG, d), URIFINAL + ["sibling_link.oct.md", "../base-private/v.oct.md"], [False, True]), check_uri, chunk=40)
     uris = ["../specs/vocab.oct.md", "../../outside/secret.txt", "../../../outside/secret.txt", "/etc/hostname", "../docs/../../outside/secret.txt"]
     ctx.explore("hydrate_check_cli", Product(uris, [True, False]), check_hydrate_cli, chunk=1)
